@@ -714,6 +714,8 @@ def _as_arr(x):
 
 F32_LOG: list = []
 F32_OPS_LOG: list = []
+# every product / quotient / power whose RESULT is a float32 scalar element (out-of-place arithmetic in single precision)
+F32_RES_LOG: list = []
 
 
 def _rnd_add(rnd, dt):
@@ -977,6 +979,9 @@ def binary(a, b, op, out=None):
     rnd = (a._rnd[0] + b._rnd[0], a._rnd[1] + b._rnd[1])
     if dt.name in _FLOATS or dt.elem:
         rnd = _rnd_add(rnd, dt if dt.name in _FLOATS else DType.float64)
+    if dt.name == 'float32' and op in ('mul', 'div') and res.size <= 64:
+        for idx_ in np.ndindex(res.shape):
+            F32_RES_LOG.append(res[idx_])
     return Variable(_arr=res, _var=var, dims=dims, unit=unit, dtype=dt, _rnd=rnd)
 
 
@@ -1102,6 +1107,9 @@ def power(a: Variable, n):
     if a._dtype.name in _INTS and nv < 0:
         raise C.Unsupported('negative integer power of integer variable')
     res = _map1(lambda x: x ** nv, a._a)
+    if dt is not None and dt.name == 'float32' and res.size <= 64:
+        for idx_ in np.ndindex(res.shape):
+            F32_RES_LOG.append(res[idx_])
     var = None
     if a._v is not None:
         var = np.frompyfunc(lambda x, v: v * (nv * x ** (nv - 1)) ** 2, 2, 1)(a._a, a._v)
